@@ -3,6 +3,7 @@ import RoaringModel.Driver.Codec
 import RoaringModel.Driver.Treemap
 import RoaringModel.TreemapSer
 import RoaringModel.SpecCodec64
+import RoaringModel.SafeCodec
 /-! Driver handlers: family `tcodec` — the `RoaringTreemap` halves of C05, C06, C13, C14, C19.
     Same line formats as the 32-bit ops of `Driver/Codec.lean` / `Driver/Lsb0.lean`. -/
 namespace Roaring.Driver
@@ -25,6 +26,27 @@ def finishTDeser (st : DState) (i : Nat) (chk : Bool) (bytes : List Nat)
   | .error .panic => (st, match q with | some _ => "panic !SPEC(ok)" | none => "panic")
   | .error _ => (st, match q with | some _ => "err !SPEC(ok)" | none => "err")
 
+/-- guard of the run-time evaluation of `Treemap.Safe_deserialize`: `runWork` (Driver/Codec.lean) summed over the
+    partitions of the stream (`n` = partitions left) -/
+def trunWorkGo : Nat → List Nat → Nat → Nat
+  | 0, _, acc => acc
+  | n + 1, bs, acc =>
+    if bs.length < 4 then acc else
+    let r := runWork (bs.drop 4)
+    if r.2.isEmpty then acc + r.1 else trunWorkGo n r.2 (acc + r.1)
+
+def trunWork (bytes : List Nat) : Nat :=
+  if bytes.length < 8 then 0 else trunWorkGo (leVal (bytes.take 8)) (bytes.drop 8) 0
+
+@[noinline] def evalSafeTDeserialize {σ : Type} (R : Nat → Parser σ (List Nat)) (chk dbg : Bool) (s : σ) : Bool :=
+  decide (Treemap.Safe_deserialize R chk dbg s)
+
+@[noinline] def safeTDeser {σ : Type} (name : String) (R : Nat → Parser σ (List Nat)) (chk dbg : Bool) (bytes : List Nat)
+    (s : σ) (properPrefix : Bool := false) : String :=
+  match safeSkip bytes.length (trunWork bytes) properPrefix with
+  | true => ""
+  | false => safeMark name (evalSafeTDeserialize R chk dbg s)
+
 def sliceResult (r : Except DecErr (Treemap × List Nat)) : Except DecErr (Treemap × Nat) :=
   match r with
   | .ok (m, rest) => .ok (m, rest.length)
@@ -35,12 +57,14 @@ def opsTreemapCodec : Handler := fun st toks =>
   match toks with
   | ["tser", d] => do
     let (_, sl) ← t? d
+    let safe := safeMark "tser" (decide (Treemap.Safe_serialize sl.m))
     match Treemap.serializeM st.dbg sl.m with
-    | some bytes => pure (st, specMark (showBytes bytes) (showBytes (Spec.encode64 sl.s)))
-    | none => pure (st, specMark "panic" (showBytes (Spec.encode64 sl.s)))
+    | some bytes => pure (st, specMark (showBytes bytes) (showBytes (Spec.encode64 sl.s)) ++ safe)
+    | none => pure (st, specMark "panic" (showBytes (Spec.encode64 sl.s)) ++ safe)
   | ["tser_size", d] => do
     let (_, sl) ← t? d
-    pure (st, specMark (toString (Treemap.serializedSize sl.m)) (toString (Spec.encode64 sl.s).length))
+    pure (st, specMark (toString (Treemap.serializedSize sl.m)) (toString (Spec.encode64 sl.s).length)
+      ++ safeMark "tser_size" (decide (Treemap.Safe_serializedSize sl.m)))
   | ["tspec_encode", d] => do
     let (_, sl) ← t? d
     pure (st, showBytes (Spec.encode64 sl.s))
@@ -53,24 +77,28 @@ def opsTreemapCodec : Handler := fun st toks =>
     | none => pure (st, "err")
   | ["tdeser", mode, d, h] => do
     let chk ← parseMode mode; let i ← parseTSlot 't' d; let bytes ← parseHex h
-    pure (finishTDeser st i chk bytes (sliceResult (Treemap.deserialize chk st.dbg bytes)))
+    pure (withSafe (finishTDeser st i chk bytes (sliceResult (Treemap.deserialize chk st.dbg bytes)))
+      (safeTDeser "tdeser" readN chk st.dbg bytes bytes))
   | ["tdeser_trunc", mode, d, k, h] => do
     let chk ← parseMode mode; let i ← parseTSlot 't' d; let k ← parseU64 k; let full ← parseHex h
     let bytes := full.take k
     let r := sliceResult (Treemap.deserialize chk st.dbg bytes)
+    let safe := safeTDeser "tdeser_trunc" readN chk st.dbg bytes bytes (decide (k < full.length))
     -- a strict prefix of a conformant stream must be an error (C14)
     match Spec.decode64 full, r with
     | some (_, srest), .ok (m, rest) =>
       if k < full.length - srest.length then
-        pure (st.setT i ⟨m, Treemap.elems m⟩, specMark (showTDeser chk m rest) "err")
-      else pure (finishTDeser st i chk bytes r)
-    | _, _ => pure (finishTDeser st i chk bytes r)
+        pure (st.setT i ⟨m, Treemap.elems m⟩, specMark (showTDeser chk m rest) "err" ++ safe)
+      else pure (withSafe (finishTDeser st i chk bytes r) safe)
+    | _, _ => pure (withSafe (finishTDeser st i chk bytes r) safe)
   | ["tdeser_sched", mode, d, sc, h] => do
     let chk ← parseMode mode; let i ← parseTSlot 't' d; let cyc ← parseSched sc; let bytes ← parseHex h
-    let r := match Treemap.deserializeSched chk st.dbg bytes (expandSched cyc (bytes.length + 2)) with
+    let sched := expandSched cyc (bytes.length + 2)
+    let r := match Treemap.deserializeSched chk st.dbg bytes sched with
       | .ok (m, rd) => Except.ok (m, rd.data.length)
       | .error e => .error e
-    pure (finishTDeser st i chk bytes r)
+    pure (withSafe (finishTDeser st i chk bytes r)
+      (safeTDeser "tdeser_sched" SReader.readExact chk st.dbg bytes ⟨bytes, sched⟩))
   | ["tdeser_prefix", mode, d, s, k] => do
     let chk ← parseMode mode; let i ← parseTSlot 't' d; let (_, sl) ← t? s; let k ← parseU64 k
     let total := (Spec.encode64 sl.s).length
@@ -79,12 +107,13 @@ def opsTreemapCodec : Handler := fun st toks =>
     | none => pure (st, specMark "panic" specOut)
     | some all =>
     let bytes := all.take k
+    let safe := safeTDeser "tdeser_prefix" readN chk st.dbg bytes bytes (decide (k < all.length))
     match Treemap.deserialize chk st.dbg bytes with
     | .ok (m, rest) =>
       pure (st.setT i ⟨m, if k < total then Treemap.elems m else sl.s⟩,
-            specMark s!"ok rest={rest.length} eq={showBool (Treemap.eq m sl.m)}" specOut)
-    | .error .panic => pure (st, specMark "panic" specOut)
-    | .error _ => pure (st, specMark "err" specOut)
+            specMark s!"ok rest={rest.length} eq={showBool (Treemap.eq m sl.m)}" specOut ++ safe)
+    | .error .panic => pure (st, specMark "panic" specOut ++ safe)
+    | .error _ => pure (st, specMark "err" specOut ++ safe)
   | ["tser_fail", d, lim, mode, sc] => do
     let (_, sl) ← t? d
     let k ← (parseKV "limit" lim).bind parseU64
@@ -93,9 +122,10 @@ def opsTreemapCodec : Handler := fun st toks =>
     let total := Spec.encode64 sl.s
     let w : SWriter := { accRev := [], room := k, zeroMode := zero, sched := expandSched cyc (total.length + 2) }
     let show_ (ok : Bool) (bs : List Nat) := (if ok then "ok" else "err") ++ s!" n={bs.length} sh={hex64 (fnv bs)}"
+    let safe := safeMark "tser_fail" (decide (Treemap.Safe_serialize sl.m))
     match Treemap.serializeIntoM st.dbg sl.m w with
-    | some r => pure (st, specMark (show_ r.1 r.2.bytes) (show_ (decide (total.length ≤ k)) (total.take k)))
-    | none => pure (st, specMark "panic" (show_ (decide (total.length ≤ k)) (total.take k)))
+    | some r => pure (st, specMark (show_ r.1 r.2.bytes) (show_ (decide (total.length ≤ k)) (total.take k)) ++ safe)
+    | none => pure (st, specMark "panic" (show_ (decide (total.length ≤ k)) (total.take k)) ++ safe)
   | ["tserde_events", d] => do
     let (_, sl) ← t? d
     match Serde.tserEventsM st.dbg sl.m with
